@@ -174,9 +174,7 @@ def snap_shard(res, iset, first, L):
                     c3, p3 = inst
                 # re-create the state by assignment; scratch fields are NOT reset
                 regs, mem = snaps[k]
-                for s_, v_ in zip(p3.set, regs):
-                    if s_ is not None:
-                        s_(v_)
+                p3.restore_regs(regs, scratch=False)
                 for mc, (b_, e_, data) in zip(c3.mem.memories, mem):
                     mc.mem.memory_array[:] = data
                 res.cases += 1
